@@ -4,6 +4,10 @@ from fractions import Fraction
 
 import exprlang as X
 
+
+def json_dumps(e):
+    return str(e)
+
 STATE_NAMES = ["wealth", "health", "zeta", "age_grp", "kids", "lagged"]
 CHOICE_NAMES = ["cons", "work", "alpha", "effort", "gift", "b_choice"]
 PARAM_NAMES = ["a", "b", "scale"]
@@ -14,15 +18,14 @@ def gen_grid(rng, cont, used_sizes):
         n = rng.choice([2, 2, 3, 3, 4])
         return {"d": n}
     for _ in range(10):
-        n = rng.choice([2, 3, 3, 4, 5])
+        # n - 1 a power of two and dyadic bounds: jnp.linspace is then exact, so comparisons of grid
+        # values (constraints such as c <= w, c == d) are decided identically in floats and rationals
+        n = rng.choice([2, 3, 3, 5, 5, 9])
         if n not in used_sizes:
             break
     used_sizes.add(n)
     a = Fraction(rng.randint(-8, 8), rng.choice([1, 2, 4]))
-    if rng.random() < 0.8:
-        step = Fraction(rng.choice([1, 2, 4, 8]), rng.choice([1, 2, 4]))
-    else:
-        step = Fraction(rng.randint(1, 9), rng.choice([1, 3, 5]))
+    step = Fraction(rng.choice([1, 2, 4, 8, 3, 5]), rng.choice([1, 2, 4]))
     return {"lin": [a, a + step * (n - 1), n]}
 
 
@@ -41,7 +44,106 @@ def is_cont(g):
     return "lin" in g
 
 
-def gen_model(rng, *, max_periods=3, allow_stochastic=True, allow_filter=True, force=None):
+def py_eval(mspec, params, env, name, depth=0):
+    """evaluate a model function by name (Fractions); mirrors Spec.Lang.eval_fun"""
+    f = next(x for x in mspec["functions"] if x["name"] == name)
+    fnames = {x["name"] for x in mspec["functions"]}
+    local = {}
+    for a in f["args"]:
+        if a in env:
+            local[a] = env[a]
+        elif a in fnames:
+            local[a] = py_eval(mspec, params, env, a, depth + 1)
+        else:
+            local[a] = params["fpar"].get(name, {}).get(a, Fraction(0))
+    return X.ev(f["body"], local)
+
+
+def feasible_share(mspec, params):
+    """share of (period, state) pairs with at least one admissible choice"""
+    import itertools
+    snames = [n for n, _ in mspec["states"]]
+    cnames = [n for n, _ in mspec["choices"]]
+    spts = [gpoints(g) for _, g in mspec["states"]]
+    cpts = [gpoints(g) for _, g in mspec["choices"]]
+    checks = [f["name"] for f in mspec["functions"] if f["name"].endswith(("_filter", "_constraint"))]
+    tot = ok = 0
+    for t in range(mspec["n_periods"]):
+        for sv in itertools.product(*spts):
+            tot += 1
+            for cv in itertools.product(*cpts):
+                env = dict(zip(snames, sv))
+                env.update(zip(cnames, cv))
+                env["_period"] = Fraction(t)
+                if all(py_eval(mspec, params, env, c) != 0 for c in checks):
+                    ok += 1
+                    break
+    return ok / max(tot, 1)
+
+
+def excludes_states(mspec):
+    """does some combination of the filter's state variables have no filter-passing choice in some period?"""
+    import itertools
+    flt = [f for f in mspec["functions"] if f["name"].endswith("_filter")]
+    if not flt:
+        return False
+    grids = dict((n, g) for n, g in mspec["states"] + mspec["choices"])
+    snames = {n for n, _ in mspec["states"]}
+    names = sorted({a for f in flt for a in f["args"] if a != "_period"})
+    sv = [n for n in names if n in snames]
+    cv = [n for n in names if n not in snames]
+    for t in range(mspec["n_periods"]):
+        for scombo in itertools.product(*[gpoints(grids[n]) for n in sv]):
+            ok = False
+            for ccombo in itertools.product(*[gpoints(grids[n]) for n in cv]):
+                env = dict(zip(sv, scombo))
+                env.update(zip(cv, ccombo))
+                env["_period"] = Fraction(t)
+                if all(X.ev(f["body"], env) != 0 for f in flt):
+                    ok = True
+                    break
+            if not ok:
+                return True
+    return False
+
+
+def depends_on_variable(mspec, name, seen=()):
+    """does the function (transitively) take a model variable or the period as argument?"""
+    f = next(x for x in mspec["functions"] if x["name"] == name)
+    fnames = {x["name"] for x in mspec["functions"]}
+    variables = {n for n, _ in mspec["states"] + mspec["choices"]} | {"_period"}
+    for a in f["args"]:
+        if a in variables:
+            return True
+        if a in fnames and a not in seen and depends_on_variable(mspec, a, (*seen, name)):
+            return True
+    return False
+
+
+def gen_model(rng, *, min_share=0.7, allow_state_exclusion=True, **kw):
+    """a random model in which at least min_share of the (period, state) pairs have an admissible choice;
+    allow_state_exclusion=False: filters restrict choices only (every state keeps a passing choice)"""
+    best = None
+    for _ in range(40):
+        mspec, params = gen_model_raw(rng, **kw)
+        if not allow_state_exclusion and excludes_states(mspec):
+            continue
+        # transitions must depend on a model variable (a constant transition crashes lcm.simulate: C12)
+        if any(f["name"].startswith("next_") and not f["stochastic"] and not depends_on_variable(mspec, f["name"])
+               for f in mspec["functions"]):
+            continue
+        sh = feasible_share(mspec, params)
+        if sh >= min_share:
+            return mspec, params
+        if best is None or sh > best[0]:
+            best = (sh, mspec, params)
+    if best is None:
+        return gen_model(rng, min_share=0.0, allow_state_exclusion=allow_state_exclusion,
+                         **{**kw, "allow_filter": False, "force": (kw.get("force") or set()) - {"filter", "period_filter"}})
+    return best[1], best[2]
+
+
+def gen_model_raw(rng, *, max_periods=3, allow_stochastic=True, allow_filter=True, force=None):
     """-> (mspec, params).  `force` may request features: set of {'filter','stochastic','constraint',
     'two_cont_choices','mixed_discrete_choices','period_filter'}"""
     force = force or set()
@@ -132,6 +234,8 @@ def gen_model(rng, *, max_periods=3, allow_stochastic=True, allow_filter=True, f
         pars = pick_pars()
         pool = rng.sample(allvars, rng.randint(1, min(3, len(allvars)))) + aux + (["_period"] if rng.random() < 0.2 else [])
         body = X.gen_num(rng, pool + pars, 2)
+        if rng.random() < 0.35:
+            body = ["asum", body, X.gen_num(rng, pool + pars, 1)]
         name = ["income", "zz_aux", "helper"][k]
         add(name, sorted(X.names_in(body)), body, pars=[p for p in pars if p in X.names_in(body)])
         aux.append(name)
@@ -170,11 +274,18 @@ def gen_model(rng, *, max_periods=3, allow_stochastic=True, allow_filter=True, f
             continue
         pars = pick_pars()
         if is_cont(g):
-            pool = [n] + rng.sample(allvars, rng.randint(0, min(2, len(allvars)))) + (aux[:1] if aux and rng.random() < 0.3 else [])
+            # lcm.simulate evaluates transitions on whole columns (known finding C03): transitions only
+            # use auxiliary functions that are element-wise
+            ew_aux = [a_ for a_ in aux if "asum" not in json_dumps(next(f for f in funcs if f["name"] == a_)["body"])
+                      and all("asum" not in json_dumps(next(f for f in funcs if f["name"] == d)["body"])
+                              for d in next(f for f in funcs if f["name"] == a_)["args"] if d in aux)]
+            pool = [n] + rng.sample(allvars, rng.randint(0, min(2, len(allvars)))) + (ew_aux[:1] if ew_aux and rng.random() < 0.3 else [])
             if rng.random() < 0.2:
                 pool.append("_period")
             a, b, npts = g["lin"]
             body = X.gen_num(rng, pool + pars, 2)
+            if not (X.names_in(body) - set(pars)):
+                body = ["+", body, X.v(n)]
             if rng.random() < 0.6:   # keep mostly near the grid
                 body = ["clip", body, X.c(a - (b - a) / 2), X.c(b + (b - a) / 2)]
         else:
@@ -207,6 +318,8 @@ def gen_model(rng, *, max_periods=3, allow_stochastic=True, allow_filter=True, f
                set().union(*[set(f["args"]) for f in funcs if f["name"].endswith(("_constraint", "_filter"))] or [set()])]
     for x in missing:
         body = ["+", body, ["*", X.c(Fraction(rng.choice([1, 3, 5, -2]), rng.choice([1, 2]))), X.v(x)]]
+    if rng.random() < 0.3:      # written as a reduction over a stacked array (not element-wise on columns)
+        body = ["asum", body, X.c(Fraction(rng.randint(0, 3), 2))]
     add("utility", sorted(X.names_in(body)), body, pars=[p for p in pars if p in X.names_in(body)])
 
     # the filters together must leave something in every period; otherwise keep only the first
